@@ -87,6 +87,7 @@ int main() {
     static int counter = 0;
     return hv::main_loop([](In& in, Out& out) {
         const i64 mode = in.next();
+        const bool expired = in.next() != 0;
         const auto P = in.bytes();
         en::Config pc{};
         pc.identity_seed = 30u; pc.relay_enabled = false; pc.storage_persistent_enabled = false;
@@ -149,6 +150,7 @@ int main() {
         ControlEndpoint local; local.script.code = in.next(); if (local.script.code == 2) local.script.bytes = in.bytes();
         local.start();
 
+        if (expired) manifest.expires_at = std::chrono::system_clock::now() - std::chrono::seconds(100);     // on the CLI's clock
         const auto uri = protocol::encode_manifest(manifest);
         const auto outfile = std::filesystem::temp_directory_path() / ("verif-c30-" + std::to_string(::getpid()) + "-" + std::to_string(counter++) + ".bin");
         std::filesystem::remove(outfile);
